@@ -170,8 +170,18 @@ func SideConditions(as []*smt.Term) []*smt.Term {
 		case "url.ok":
 			// url.Parse rejects ASCII control characters
 			add(smt.Implies(x, smt.InRe(x.Args[0], reNoCtl)))
+		case "vurl.ok":
+			// summary of validURL (established on the real code by HarnessC20_validURL):
+			// an accepted value's result is accepted again and is its own result
+			r := x.Args[0]
+			out := smt.UF("vurl.out", smt.String, r)
+			if !(r.Op == "uf" && r.Name == "vurl.out") {
+				add(smt.Implies(x, smt.And(smt.UF("vurl.ok", smt.Bool, out), smt.Eq(smt.UF("vurl.out", smt.String, out), out))))
+			}
 		case "url.norm":
 			r := x.Args[0]
+			// URL.String() escapes white space and control characters
+			add(smt.Implies(urlOK(r), smt.InRe(x, reNoWSCtl)))
 			add(smt.Implies(urlOK(r), smt.And(
 				urlOK(x),
 				smt.Eq(urlField("scheme", x), urlField("scheme", r)),
@@ -187,6 +197,9 @@ func SideConditions(as []*smt.Term) []*smt.Term {
 			// that prefix is a letter followed by letters, digits, + - . ; otherwise
 			// there is none
 			r := x.Args[0]
+			if !SchemeAxiom {
+				break
+			}
 			has := smt.InRe(r, reHasScheme)
 			idx := smt.IndexOf(r, smt.StrC(":"), smt.IntC(0))
 			add(smt.Implies(urlOK(r), smt.Ite(has, smt.Eq(x, Lower(smt.Substr(r, smt.IntC(0), idx))), smt.Eq(x, smt.StrC("")))))
@@ -199,6 +212,11 @@ func SideConditions(as []*smt.Term) []*smt.Term {
 	return out
 }
 
+// SchemeAxiom enables the structural axiom relating url.scheme(s) to the
+// text of s (net/url's getScheme). Checks that only need scheme(norm(s)) =
+// scheme(s) switch it off to keep queries light.
+var SchemeAxiom = true
+
 // HostileFragments are the substrings C18 forbids in accepted CSS values.
 var HostileFragments = []string{"<", ">", "\\", "@", "expression(", "javascript:", "data:", "url("}
 
@@ -208,6 +226,7 @@ var (
 	reNoCtl      = smt.ReStar(smt.ReRange(0x20, 0x7e))
 	reScheme     = smt.ReUnion(smt.ReLit(""), smt.ReConcat(smt.ReRange('a', 'z'), smt.ReStar(smt.ReUnion(smt.ReRange('a', 'z'), smt.ReRange('0', '9'), smt.ReLit("+"), smt.ReLit("."), smt.ReLit("-")))))
 	reHasScheme  = smt.ReConcat(smt.ReUnion(smt.ReRange('a', 'z'), smt.ReRange('A', 'Z')), smt.ReStar(smt.ReUnion(smt.ReRange('a', 'z'), smt.ReRange('A', 'Z'), smt.ReRange('0', '9'), smt.ReLit("+"), smt.ReLit("."), smt.ReLit("-"))), smt.ReLit(":"), smt.SigmaStar)
+	reNoWSCtl    = smt.ReStar(smt.ReRange(0x21, 0x7e))
 	reHasMarkup  = smt.ReConcat(smt.SigmaStar, smt.ReUnion(smt.ReLit("<"), smt.ReLit(">"), smt.ReLit("\""), smt.ReLit("'")), smt.SigmaStar)
 )
 
@@ -229,6 +248,10 @@ func memo(st *State, key string, mk func() Value) Value {
 func trimSpace(st *State, x *smt.Term) *smt.Term {
 	if x.IsConst() {
 		return smt.StrC(strings.TrimSpace(x.S))
+	}
+	// A3: URL.String() (and the validURL summary's result) contains no white space
+	if x.Op == "uf" && (x.Name == "url.norm" || x.Name == "vurl.out") {
+		return x
 	}
 	return memo(st, fmt.Sprintf("trimspace:%d", x.ID()), func() Value {
 		l := st.fresh("ts.l", smt.String)
@@ -1170,4 +1193,13 @@ func (in *Interp) OpaqueError(kind string) Value {
 	id := in.nextObj
 	in.mu.Unlock()
 	return IfaceV{T: errType(kind), V: &OpaqueV{Kind: "err", ID: id}}
+}
+
+// trimTermPure is TrimSpace as an uninterpreted function (used only inside
+// axioms, where no path state is available).
+func trimTermPure(x *smt.Term) *smt.Term {
+	if x.IsConst() {
+		return smt.StrC(strings.TrimSpace(x.S))
+	}
+	return smt.UF("trimspace", smt.String, x)
 }
